@@ -72,9 +72,11 @@ def name_mode_probe(ctx):
     reference builder) and every value is the reference evaluation of the task's provenance term.  Families without a file mounted
     twice (in name mode a twice-mounted file shares its task objects across the mounts)."""
     root = ctx.tmpdir()
-    for h in range(ctx.n(14, 120)):
+    for h in range(ctx.n(24, 160)):
         rng = ctx.rng('name-mode', h)
-        spec, variants = machine.gen_family(rng, rich=True, kinds=[k for k in machine.gen.KINDS_P if k not in ('dir', 'continues')])
+        # (every second family: nested namespaces only, files rarely mounted twice — the shapes the name-mode oracle can judge)
+        spec, variants = machine.gen_family(rng, rich=True, kinds=[k for k in machine.gen.KINDS_P if k not in ('dir', 'continues')],
+                                            ns_pool=['m::k', 'z::n', 'm::k', 'n'] if h % 2 else None, double_p=0.15 if h % 2 else 0.6)
         b = pl.materialize(spec, root / f'nm{h}' / 'src', modname=spec['module'])
         mod = b.module()
         mod.RUNLOG.clear(); mod.FAIL.clear(); mod.DONE.clear()
@@ -114,6 +116,180 @@ def name_mode_probe(ctx):
                              known='K3' if machine.k3_in_closure(task, spec) else None)
                     break
         b.cleanup_module()
+
+
+def mutable_default_probe(ctx):
+    """a task whose run uses a list- or dict-valued parameter as scratch space (appends in place), the parameter left at its declared
+    default: every chain built afterwards in the same process — same or another config, each on its own data directory — still computes
+    from the DECLARED default; the directed part also mounts the class twice in one chain"""
+    root = ctx.tmpdir()
+    for h in range(ctx.n(8, 60)):
+        rng = ctx.rng('mutable-default', h)
+        dflt = rng.choice([[0], [], {'k': [1]}, [[1], {'a': 2}]])
+        spec = {'classes': {'K0': {'name': 'acc', 'group': '', 'params': [{'name': 'x'}, {'name': 'acc_', 'default': dflt}], 'inputs': [], 'kind': 'json',
+                                   'run_args': ['x']},
+                            'K1': {'name': 'down', 'group': '', 'params': [], 'inputs': [{'by': 'class', 'ref': 'K0'}], 'kind': rng.choice(['json', 'memory']),
+                                   'run_args': ['acc'], 'in_kinds': {'acc': 'json'}}},
+                'files': {'p.json': {'tasks': ['K0', 'K1'], 'x': 1}, 'q.json': {'tasks': ['K0', 'K1'], 'x': 2},
+                          'main_v0.json': {'uses': ['@cfg/p.json as n1', '@cfg/q.json as n2']}, 'main_v1.json': {'uses': ['@cfg/q.json']}},
+                'main': 'main_v0.json', 'module': gen.fresh_modname()}
+        variants = [{'file': 'v0.json', 'data': {}, 'ns': None, 'context': None}, {'file': 'v1.json', 'data': {}, 'ns': None, 'context': None}]
+        b = pl.materialize(spec, root / f'md{h}' / 'src', modname=spec['module'])
+        mod = b.module()
+        mod.RUNLOG.clear(); mod.FAIL.clear(); mod.DONE.clear()
+        case = {'probe': 'mutable declared default used as scratch space', 'default': dflt, 'module': spec['module']}
+        ctx.case(case, nontrivial=True); ctx.count('mutable-default-probe')
+        order = [0, 1, 0] if h % 2 else [1, 0, 1]
+        for step, vi in enumerate(order):
+            chain, err = pl.build(b, root / f'md{h}' / f'd{step}', main=f'main_v{vi}.json', parameter_mode=bool(h % 3))
+            if chain is None:
+                ctx.fail('a chain over a class with a mutable default cannot be built', case, err); break
+            bad = None
+            for name, task in chain.tasks.items():
+                if not name.endswith('down'):
+                    continue
+                got = mod.unwrap(machine.class_of(task, spec)['kind'], task.value)
+                xval = 2 if (vi == 1 or name.startswith('n2')) else 1
+                exp_up = {'t': 'acc', 'p': {'x': xval, 'acc_': dflt}, 'i': []}
+                if got.get('i') != [['acc', exp_up]]:
+                    bad = {'chain_number': step, 'task': name, 'returned_input': got.get('i'), 'expected_input': [['acc', exp_up]]}
+                    break
+            if bad:
+                ctx.fail('a chain returned a value that is not what the task computes from its current configuration (stale or foreign result)',
+                         case, bad)
+                break
+        b.cleanup_module()
+
+
+def name_mode_parts_probe(ctx):
+    """name mode: the parts of ONE multi-config file (`multi.json#a`, `multi.json#b`) that declare the same task classes, mounted under
+    two namespaces of one chain (or built one after the other on one data directory): every task returns what ITS part configures"""
+    root = ctx.tmpdir()
+    for h in range(ctx.n(8, 60)):
+        rng = ctx.rng('name-mode-parts', h)
+        xa, xb = rng.sample([1, 2, 'a', [1], {'k': 2}, None, 0.5], 2)
+        spec = {'classes': {'K0': {'name': 'up', 'group': rng.choice(['', 'g']), 'params': [{'name': 'x'}], 'inputs': [], 'kind': 'json', 'run_args': ['x']},
+                            'K1': {'name': 'down', 'group': '', 'params': [], 'inputs': [{'by': 'class', 'ref': 'K0'}], 'kind': rng.choice(['json', 'numpy']),
+                                   'run_args': ['up'], 'in_kinds': {'up': 'json'}}},
+                'files': {'multi.json': {'configs': {'a': {'tasks': ['K0', 'K1'], 'x': xa, 'main_part': True}, 'b': {'tasks': ['K0', 'K1'], 'x': xb}}},
+                          'main_both.json': {'uses': ['@cfg/multi.json#a as n1', '@cfg/multi.json#b as n2']},
+                          'main_a.json': {'uses': ['@cfg/multi.json#a']}, 'main_b.json': {'uses': ['@cfg/multi.json#b' + rng.choice(['', ' as n2'])]}},
+                'main': 'main_both.json', 'module': gen.fresh_modname()}
+        b = pl.materialize(spec, root / f'nmp{h}' / 'src', modname=spec['module'])
+        mod = b.module()
+        mod.RUNLOG.clear(); mod.FAIL.clear(); mod.DONE.clear()
+        case = {'probe': 'name mode, parts of one multi-config file', 'x': [xa, xb], 'files': spec['files']}
+        ctx.case(case, nontrivial=True); ctx.count('name-mode-parts-probe')
+        up = ('g:' if spec['classes']['K0']['group'] else '') + 'up'
+        plan = [('main_both.json', {'n1::down': xa, 'n2::down': xb})] if h % 2 == 0 else \
+               [('main_a.json', {'down': xa}), ('main_b.json', {k: xb for k in ('down', 'n2::down')})]
+        for main, want in plan:
+            chain, err = pl.build(b, root / f'nmp{h}' / 'data', main=main, parameter_mode=False)
+            if chain is None:
+                ctx.fail('a name-mode chain over parts of one file cannot be built', case, {'main': main, 'error': err}); break
+            bad = None
+            for name, xval in want.items():
+                if name not in chain.tasks:
+                    continue
+                t = chain.tasks[name]
+                got = mod.unwrap(machine.class_of(t, spec)['kind'], t.value)
+                exp = {'t': 'down', 'p': {}, 'i': [['up', {'t': up, 'p': {'x': xval}, 'i': []}]]}
+                if got != exp:
+                    bad = {'main': main, 'task': name, 'returned': got, 'expected': exp}
+                    break
+            if bad:
+                ctx.fail('a chain returned a value that is not what the task computes from its current configuration (stale or foreign result)',
+                         case, bad)
+                break
+        b.cleanup_module()
+
+
+def lazy_failure_probe(ctx):
+    """a result streamed record by record (GeneratedDataLazy) whose run fails AFTER the first record is out: the next chain on the same data
+    directory computes the task again and returns the complete value — nothing of the broken attempt is ever served"""
+    root = ctx.tmpdir()
+    for h in range(ctx.n(6, 40)):
+        rng = ctx.rng('lazy-failure', h)
+        x = gen.gen_value(rng, 0, 2, gen.SAFE, gen.SAFE)
+        spec = {'classes': {'K0': {'name': 'rows', 'group': rng.choice(['', 'g']), 'params': [{'name': 'x'}], 'inputs': [], 'kind': 'genlazy', 'run_args': ['x']},
+                            'K1': {'name': 'down', 'group': '', 'params': [], 'inputs': [{'by': 'class', 'ref': 'K0'}], 'kind': 'json',
+                                   'run_args': ['rows'], 'in_kinds': {'rows': 'genlazy'}}},
+                'files': {'main_v0.json': {'tasks': ['K0', 'K1'], 'x': x}}, 'main': 'main_v0.json', 'module': gen.fresh_modname()}
+        b = pl.materialize(spec, root / f'lz{h}' / 'src', modname=spec['module'])
+        mod = b.module()
+        mod.RUNLOG.clear(); mod.FAIL.clear(); mod.DONE.clear()
+        up = ('g:' if spec['classes']['K0']['group'] else '') + 'rows'
+        case = {'probe': 'streamed result, run fails after the first record', 'x': x, 'module': spec['module']}
+        ctx.case(case, nontrivial=True); ctx.count('lazy-failure-probe')
+        data = root / f'lz{h}' / 'data'
+        c1, err = pl.build(b, data, main='main_v0.json')
+        mod.FAIL.add(up)
+        try:
+            _ = mod.unwrap('json', c1.tasks['down'].value) if h % 2 else mod.unwrap('genlazy', c1.tasks[up].value)
+            ctx.fail('a value request succeeded although the run of an upstream task failed', case, {})
+        except mod.RunFailure:
+            pass
+        except Exception as e:      # noqa
+            ctx.fail('value request raised something else than the failure of the run', case, f'{type(e).__name__}: {e}'[:200])
+        finally:
+            mod.FAIL.clear()
+        c2, err = pl.build(b, data, main='main_v0.json')
+        exp_up = {'t': up, 'p': {'x': machine.plain(x)}, 'i': []}
+        try:
+            got = mod.unwrap('genlazy', c2.tasks[up].value)
+            got_down = mod.unwrap('json', c2.tasks['down'].value)
+        except Exception as e:      # noqa
+            ctx.fail('value request raised although no run was told to fail', case, f'{type(e).__name__}: {e}'[:200]); b.cleanup_module(); continue
+        if got != exp_up or got_down != {'t': 'down', 'p': {}, 'i': [['rows', exp_up]]}:
+            ctx.fail('a chain returned a value that is not what the task computes from its current configuration (stale or foreign result)',
+                     case, {'returned': [got, got_down], 'expected_upstream': exp_up})
+        b.cleanup_module()
+
+
+def foreign_result_probes(ctx):
+    """two directed shapes in which a second chain must not be served the first one's result: (i) a parameter whose value is a plain object
+    (no `repr` of its own) with other state; (ii) name mode, two config files on one data directory whose names differ only after their
+    last dot (`exp.v1.json`, `exp.v2.json`)"""
+    from taskchain import Config
+    root = ctx.tmpdir()
+    spec = {'classes': {'K0': {'name': 'o', 'group': '', 'params': [{'name': 'x'}], 'inputs': [], 'kind': 'json', 'run_args': ['x']}},
+            'files': {'exp.v1.json': {'tasks': ['K0'], 'x': 1}, 'exp.v2.json': {'tasks': ['K0'], 'x': 2}, 'exp.json': {'tasks': ['K0'], 'x': 3}},
+            'main': 'exp.v1.json', 'module': gen.fresh_modname()}
+    b = pl.materialize(spec, root / 'fr' / 'src', modname=spec['module'])
+    mod = b.module()
+    mod.RUNLOG.clear(); mod.FAIL.clear(); mod.DONE.clear()
+    cls = getattr(mod, pl.pyname('K0'))
+    for k in range(ctx.n(3, 12)):
+        order = [['exp.v1.json', 'exp.v2.json', 'exp.json'], ['exp.json', 'exp.v2.json', 'exp.v1.json'], ['exp.v2.json', 'exp.v1.json']][k % 3]
+        case = {'probe': 'name mode, config names differing after the last dot', 'order': order}
+        ctx.case(case, nontrivial=True); ctx.count('foreign-result-probe:dotted-names')
+        for main in order:
+            chain, err = pl.build(b, root / 'fr' / f'data{k}', main=main, parameter_mode=False)
+            want = spec['files'][main]['x']
+            got = mod.unwrap('json', chain.tasks['o'].value)
+            if got != {'t': 'o', 'p': {'x': want}, 'i': []}:
+                ctx.fail('a chain returned a value that is not what the task computes from its current configuration (stale or foreign result)',
+                         case, {'config': main, 'returned': got, 'expected_x': want}); break
+
+    class Knob:
+        def __init__(self, v):
+            self.v = v
+    for k in range(ctx.n(3, 12)):
+        case = {'probe': 'plain object as parameter value', 'states': [k, k + 10]}
+        ctx.case(case, nontrivial=True); ctx.count('foreign-result-probe:plain-object')
+        for st in (k, k + 10):
+            ch = Config(root / 'fr' / f'objdata{k}', name='c', data={'tasks': [cls], 'x': Knob(st)}).chain()
+            t = ch.tasks['o']
+            _ = t.value
+            if t.params['x'].v != st:
+                ctx.fail('a task holds another parameter object than its config gave it', case, {}); break
+            # the value of such a task is judged by WHICH object's state went into it: the run is observed, not the (unserialisable) term
+        runs = [r for r in mod.RUNLOG if r[0] == 'o']
+        if len({r[1] for r in runs[-2:]}) < 2 or len(runs) < 2:
+            ctx.fail('a chain returned a value that is not what the task computes from its current configuration (stale or foreign result)',
+                     case, {'what': 'the second chain did not run the task (or ran it under the key of the first): it was served the result '
+                                    'computed for an object with other state', 'runs': [list(map(str, r[:2])) for r in runs[-2:]]})
+    b.cleanup_module()
 
 
 def run(ctx):
@@ -170,6 +346,10 @@ def run(ctx):
                     ctx.fail('a chain returned a value that is not what the task computes from its current configuration (stale or foreign result)',
                              case, v, known='K3' if v['k3'] else None)
     name_mode_probe(ctx)
+    mutable_default_probe(ctx)
+    name_mode_parts_probe(ctx)
+    lazy_failure_probe(ctx)
+    foreign_result_probes(ctx)
     k3_witness(ctx)
 
 
